@@ -8,6 +8,8 @@ Case kinds
         df = m.to_dataframe(flags); then (class with cls.names).from_dataframe(df, dtype=, default_value=, strict=)
   {'kind': 'solved', 'script': str, 'span': spec, 'x': [cells], 'flags': [...]}      a parsed + solved model, same observations
   {'kind': 'container', 'span': spec, 'vars': [[name, dtype, [cells]]], 'model': bool}     VectorContainer.to_dataframe
+  {'kind': 'history', <model fields of export>, 'steps': [['from', st] | ['reindex', spec] | ['copy'] | ['addvar', name, cell] | ['set', cell] | ['solve', k]]}
+        the object after every step is exported, rebuilt with from_dataframe and compared with the model run on its CURRENT state
   {'kind': 'linker', 'name': cell, 'span': spec, 'lnames': [...], 'subs': [[key cell, names, {name: cells}]], 'flags': [...]}
   {'kind': 'symbols', 'syms': [[name|None, type int, lags|None, leads|None, equation|None, code|None]]} | {'kind': 'symbols', 'script': s}
         symbols_to_dataframe, then dataframe_to_symbols
@@ -42,7 +44,9 @@ RULE = ('table-validation pass first: every entry of the pandas / NumPy behaviou
         '0..3 runtime-added variables of every dtype, written status / iterations or really solved models, all 8 flag combinations, '
         'round-trip classes inside the guard (class lists every exported variable, dtype= equal to the series dtype / object / exactly representable float; about half of the export cases) and outside it (permuted, extended, reduced, duplicated NAMES; every dtype=; strict / non-strict; default values: K only); every name set x '
         'every flag combination x every model dtype on a two-period span; hand-edited names lists (duplicates, status / iterations, '
-        'unknown names: malformed stream, K only); AliasMixin models (plain path, use_aliases not given) and PandasIndexFeaturesMixin models; '
+        'unknown names: malformed stream, K only); histories (from_dataframe -> reindex to a shifted / longer / shorter / reversed / new span, copy, '
+        'add_variable, writes -> export and from_dataframe again, every step compared: the export is a function of the current state); models and '
+        'linkers without any public variable (no names, only underscore names) under all 8 flag combinations; AliasMixin models (plain path, use_aliases not given) and PandasIndexFeaturesMixin models; '
         'from_dataframe with engine= passed through and with extra positional arguments (TypeError); plain VectorContainers and VectorContainer.to_dataframe on model objects; linkers with '
         '0..3 submodels keyed by str / int (incl. a key equal to the linker name); symbol lists from parsed C01-grammar scripts and '
         'hand-made lists exercising every optional field None / not None, lags / leads at 0, +-1, +-2^53, +-(2^53+1), int64 bounds and '
@@ -302,7 +306,8 @@ def obs_table(df):
 
 
 def obs_model(m):
-    return {'span': {'kind': span_kind_name(m.span), 'labels': [enc(x) for x in m.span]},
+    return {'span': {'kind': span_kind_name(m.span), 'labels': [enc(x) for x in m.span],
+                     'dtype': pd_dtype_name(m.span.dtype) if hasattr(m.span, 'dtype') and hasattr(m.span, 'get_loc') else None},
             'names': list(m.names),
             'vars': [[k, np_kind(m[k]), [enc(x) for x in m[k]]] for k in dict.fromkeys(m.names) if k in m.index and k not in ('status', 'iterations')],
             'status': [np_kind(m.status), [enc(x) for x in m.status]],
@@ -389,6 +394,47 @@ def impl(case):
             extra = ['python'] * int(cl.get('nargs') or 0)         # extra positional arguments
             obs['rt'] = _attempt(lambda: obs_model(M2.from_dataframe(df, *extra, **kw)))
         return obs
+    if k == 'history':
+        M, m = _build_model(case)
+        st, it, ii = case['flags']
+        records = []
+
+        def record(step):
+            rec = {'step': step, 'pre': obs_model(m)}
+            df = None
+
+            def export():
+                nonlocal df
+                df = m.to_dataframe(status=st, iterations=it, include_internal=ii)
+                return obs_table(df)
+            rec['table'] = _attempt(export)
+            if df is not None:
+                C = type('H', (fsic.BaseModel,), {'NAMES': list(m.names)})
+                rec['rt'] = _attempt(lambda: obs_model(C.from_dataframe(df)))
+            records.append(rec)
+        record(['built'])
+        for step in case['steps']:
+            op = step[0]
+            try:
+                if op == 'from':
+                    C = type('H', (fsic.BaseModel,), {'NAMES': list(m.names)})
+                    m = C.from_dataframe(m.to_dataframe(status=step[1], iterations=step[1], include_internal=True))
+                elif op == 'reindex':
+                    m = m.reindex(build_span(step[1]))
+                elif op == 'copy':
+                    m = m.copy()
+                elif op == 'addvar':
+                    m.add_variable(step[1], dec(step[2]))
+                elif op == 'set':
+                    m[m.names[0]] = dec(step[1])
+                elif op == 'solve':
+                    m.status[:] = '.'
+                    m.iterations[:] = step[1]
+            except Exception as e:                # noqa: BLE001 — a refused step leaves the object as it was
+                records.append({'step': step, 'step_raise': type(e).__name__})
+                continue
+            record(step)
+        return {'records': records}
     if k == 'container':
         c = fsic.core.containers.VectorContainer(build_span(case['span'])) if not case.get('model') else fsic.BaseModel(build_span(case['span']))
         for name, dt, cells in case['vars']:
@@ -766,8 +812,26 @@ def sx_names(ns):
     return '(' + ' '.join(hexs(n) for n in ns) + ')'
 
 
+def sx_span_from_obs(sp):
+    """Span of a live object as the model's input: kind and (for pandas objects) dtype as observed, labels in order."""
+    labs = sx_cells(sp['labels'])
+    k = sp['kind']
+    if k in ('range', 'list', 'tuple', 'nparr'):
+        return '(%s %s)' % (k, labs)
+    d = sp.get('dtype') or 'object'
+    dt = '(per %s)' % d[7:-1] if d.startswith('period[') else PDT[d]
+    kind = {'RangeIndex': 'range', 'Index': 'index', 'PeriodIndex': 'period', 'DatetimeIndex': 'datetime', 'MultiIndex': 'multi',
+            'TimedeltaIndex': 'timedelta'}[k]
+    return '(pandas %s %s %s)' % (kind, dt, labs)
+
+
 def sx_model_from_obs(spec, pre):
-    """The model's input is the real object's own state before the export (span from the case)."""
+    """The model's input is the real object's own state before the export (span from the case, or as observed when spec is None)."""
+    if spec is None:
+        vs0 = ' '.join('(%s (%s %s))' % (hexs(k), NDT[d], sx_cells(cs)) for k, d, cs in pre['vars'])
+        return '(model %s %s (%s) (%s %s) (%s %s))' % (sx_span_from_obs(pre['span']), sx_names(pre['names']), vs0,
+                                                       NDT[pre['status'][0]], sx_cells(pre['status'][1]),
+                                                       NDT[pre['iterations'][0]], sx_cells(pre['iterations'][1]))
     vs = ' '.join('(%s (%s %s))' % (hexs(k), NDT[d], sx_cells(cs)) for k, d, cs in pre['vars'])
     return '(model %s %s (%s) (%s %s) (%s %s))' % (sx_span(spec), sx_names(pre['names']), vs,
                                                    NDT[pre['status'][0]], sx_cells(pre['status'][1]),
@@ -853,7 +917,7 @@ def encode(case, o):
             cl = dict(cl, names=[x for x in o['pre']['names']])
         d = cl.get('dtype') or 'float'
         dv = cl.get('default') or ['fi', 0]
-        return '(export %d %d %d %s (class %s %s %s %d %d))' % (st, it, ii, sx_model_from_obs(case['span'], o['pre']),
+        return '(export %d %d %d %s (class %s %s %s %d %d))' % (st, it, ii, sx_model_from_obs(None if case.get('history') else case['span'], o['pre']),
                                                                sx_names(cl['names']), NDT[d], sx_cell(dv), 1 if cl.get('strict') else 0, int(cl.get('nargs') or 0))
     if k == 'linker':
         st, it, ii = case['flags']
@@ -884,7 +948,7 @@ def compare(case, o, r):
         return 'driver error: ' + r['driver_error']
     k = case['kind']
     if k in ('export', 'solved'):
-        if k == 'export':
+        if k == 'export' and not case.get('history'):
             exp = expected_pre(case)
             pre = o['pre']
             if [list(v) for v in pre['vars']] != exp['vars'] or pre['names'] != exp['names'] or pre['status'] != exp['status'] or pre['iterations'] != exp['iterations'] \
@@ -947,31 +1011,50 @@ def compare(case, o, r):
 LAST_K = {}
 
 
+def expand(case, o):
+    """A history is compared step by step: each recorded step becomes an export case whose model input is the object's own state."""
+    if case['kind'] != 'history':
+        return [(case, o)]
+    out = []
+    for rec in (o or {}).get('records', []) if not (o or {}).get('timeout') else []:
+        if 'pre' in rec:
+            pc = {'kind': 'export', 'history': True, 'span': case['span'], 'dtype': case['dtype'], 'names': list(rec['pre']['names']),
+                  'flags': case['flags'], 'cls': None}
+            out.append((pc, rec))
+    return out
+
+
 def correspond(cases, obs, tag, tier):
-    idx = [i for i, (c, o) in enumerate(zip(cases, obs)) if modellable(c, o) and not (c['kind'] == 'linker' and 'raise' in o)]
-    lines = [encode(cases[i], obs[i]) for i in idx]
+    flat = [(i, pc, po) for i, (c, o) in enumerate(zip(cases, obs)) for pc, po in expand(c, o)]
+    idx = [j for j, (i, c, o) in enumerate(flat) if modellable(c, o) and not (c['kind'] == 'linker' and 'raise' in o)]
+    lines = [encode(flat[j][1], flat[j][2]) for j in idx]
     res, err = run_model(lines)
     if err:
         return [], [err]
     bad, unm, texts = [], 0, {}
-    for i, r in zip(idx, res):
+    for j, r in zip(idx, res):
+        i, c, o = flat[j]
         if any(r.get(f) == {'unmodelled': True} for f in ('table', 'tables', 'rt', 'cast', 'col', 'index')):
             unm += 1
-        t = compare(cases[i], obs[i], r)
+        t = compare(c, o, r)
         if t is not None:
-            bad.append(i)
-            texts[i] = t
+            if i not in texts:
+                bad.append(i)
+            texts.setdefault(i, ('after step %s: ' % json.dumps(o.get('step')) if 'step' in o else '') + t)
     LAST_K.update({'compared': len(idx), 'unmodelled': unm, 'texts': texts})
     if os.environ.get('C19_DEBUG'):
         for i in bad[:int(os.environ['C19_DEBUG'])]:
             print('K-DISAGREE', json.dumps(cases[i])[:500], '\n   ', texts[i])
-        print('K compared %d, unmodelled %d, skipped %d' % (len(idx), unm, len(cases) - len(idx)))
+        print('K compared %d (from %d cases), unmodelled %d, skipped %d' % (len(idx), len(cases), unm, len(flat) - len(idx)))
     return bad, []
 
 
 def explain(case, o):
-    res, err = run_model([encode(case, o)]) if modellable(case, o) else (None, 'not representable')
-    return err or json.dumps(res[0])[:3000]
+    flat = [(c, po) for c, po in expand(case, o) if modellable(c, po)]
+    if not flat:
+        return 'not representable'
+    res, err = run_model([encode(c, po) for c, po in flat])
+    return err or json.dumps(res)[:3000]
 
 
 # --------------------------------------------------------------------------- oracle: the property's text on the implementation alone
@@ -1072,6 +1155,13 @@ def oracle(case, o):
 
     def bad(site, clause, cls, what):
         fails.append({'sig': 'C19|%s|%s|%s' % (site, clause, cls), 'what': what})
+    if k == 'history':
+        for pc, rec in expand(case, o):
+            for f in oracle(pc, rec):
+                f = dict(f, what='after %s: %s' % (json.dumps(rec.get('step')), f['what']))
+                if f['sig'] not in [x['sig'] for x in fails]:
+                    fails.append(f)
+        return fails
     if k in ('export', 'solved'):
         if case.get('tamper'):
             return fails                          # a hand-edited names list is outside the property's models: K only
@@ -1162,6 +1252,8 @@ def nontrivial(case, o):
         return len(t['index']['labels']) >= 2 and len(t['cols']) >= 2
     if k == 'pd':
         return True
+    if k == 'history':
+        return len([r for r in o['records'] if 'pre' in r]) >= 3
     if k == 'container':
         t = o['table']
         return 'raise' in t or (len(t['index']['labels']) >= 2 and len(t['cols']) >= 2)
@@ -1184,6 +1276,8 @@ def bucket(case, o):
                                                 'in-guard:' + rt_class(case, o)[1] if in_rt_guard(case, o) else 'outside-guard')
     if k == 'pd':
         return 'pdtable/' + case['entry']
+    if k == 'history':
+        return 'history/%s/%s' % (case['span']['type'], '-'.join(st[0] for st in case['steps'][:4]))
     if k == 'container':
         return 'container/%s/%s' % ('model' if case.get('model') else 'vc', case['span']['type'])
     if k == 'linker':
@@ -1225,6 +1319,11 @@ def shrink_candidates(case):
     elif k == 'linker':
         for i in range(len(case['subs'])):
             yield dict(case, subs=case['subs'][:i] + case['subs'][i + 1:])
+    elif k == 'history':
+        for i in range(len(case['steps'])):
+            yield dict(case, steps=case['steps'][:i] + case['steps'][i + 1:])
+        for i in range(len(case.get('extra', []))):
+            yield dict(case, extra=case['extra'][:i] + case['extra'][i + 1:])
     elif k == 'container':
         for i in range(len(case['vars'])):
             yield dict(case, vars=case['vars'][:i] + case['vars'][i + 1:])
@@ -1514,6 +1613,48 @@ def gen(rng, tier):
             if model:
                 vs = [v for v in vs if v[0] not in ('status', 'iterations')]
             cases.append({'kind': 'container', 'span': spec, 'vars': vs, 'model': model})
+    # histories: the export must depend on the object's current state only.  from_dataframe -> reindex / copy / add_variable /
+    # writes -> to_dataframe -> from_dataframe again, every step exported, rebuilt and compared with the model
+    def shifted(spec, rng):
+        t = spec['type']
+        n = span_len(spec)
+        pick = rng.choice(['shift', 'longer', 'shorter', 'reverse', 'other'])
+        if t == 'range':
+            return {'shift': dict(spec, start=spec['start'] + 5), 'longer': dict(spec, n=n + 2), 'shorter': dict(spec, n=max(0, n - 1), start=spec['start'] + 1),
+                    'reverse': {'type': 'list', 'labels': span_labels(spec)[::-1]}, 'other': {'type': 'list', 'labels': [['s', 'p%d' % i] for i in range(n)]}}[pick]
+        labs = span_labels(spec)
+        ints = [['i', 100 + i] for i in range(n)]
+        return {'type': 'list', 'labels': {'shift': labs[1:] + ints[:1], 'longer': labs + ints[:2], 'shorter': labs[1:], 'reverse': labs[::-1], 'other': ints}[pick]}
+    hspecs = [sp for sp in specs if sp['type'] in ('range', 'list', 'tuple', 'nparr', 'pdindex', 'period', 'perindex', 'multi', 'objindex')
+              and 1 <= span_len(sp) <= 5 and all(l[0] in ('i', 's', 'tup', 'per') for l in span_labels(sp)) and len({json.dumps(l) for l in span_labels(sp)}) == span_len(sp)]
+    for _ in range(150 if quick else 1200):
+        spec = rng.choice(hspecs)
+        n = span_len(spec)
+        names = list(rng.choice(NAME_SETS))
+        steps = []
+        for _s in range(rng.choice([2, 3, 4, 5])):
+            op = rng.choice(['from', 'from', 'reindex', 'reindex', 'copy', 'addvar', 'set', 'solve'])
+            if op == 'from':
+                steps.append(['from', rng.random() < 0.5])
+            elif op == 'reindex':
+                steps.append(['reindex', shifted(spec, rng)])
+            elif op == 'copy':
+                steps.append(['copy'])
+            elif op == 'addvar':
+                steps.append(['addvar', rng.choice(['N1', '_N2', 'N3_']) + str(len(steps)), list(rng.choice(FLOATS))])
+            elif op == 'set' and names:
+                steps.append(['set', list(rng.choice(FLOATS))])
+            else:
+                steps.append(['solve', rng.choice([0, 1, 7])])
+        cases.append({'kind': 'history', 'span': spec, 'dtype': 'float', 'names': names, 'vals': {k: cells_for(rng, 'float', n) for k in names if rng.random() < 0.7},
+                      'extra': [], 'status': None, 'iters': None, 'flags': [rng.random() < 0.5, rng.random() < 0.5, rng.random() < 0.5], 'steps': steps})
+    # linkers with no public variables (no names at all, only underscore names) under every flag combination
+    for lnames in ([], ['_X'], ['_X', '_Y'], ['X']):
+        for snames in ([], ['_u'], ['_u', '__v'], ['W']):
+            for fl in range(8):
+                cases.append({'kind': 'linker', 'name': ['s', '_L'], 'span': base, 'lnames': lnames,
+                              'subs': [[['s', 'a'], snames, {}], [['i', 2], list(lnames), {}]],
+                              'flags': [bool(fl & 1), bool(fl & 2), bool(fl & 4)]})
     # linkers
     for _ in range(300 if quick else 2500):
         # every span type (since ee9fcdf linkers over ndarray / pandas spans can be constructed); NaN labels make the constructor refuse
